@@ -64,6 +64,20 @@ def _shift(x, loff, boff):
     return x
 
 
+def _rename_local(x, a, b):
+    """In place: every occurrence of local a (as place base or index) becomes local b."""
+    if isinstance(x, dict):
+        for k, v in x.items():
+            if k in ('l', 'idx') and isinstance(v, int) and not isinstance(v, bool):
+                if v == a:
+                    x[k] = b
+            else:
+                _rename_local(v, a, b)
+    elif isinstance(x, list):
+        for v in x:
+            _rename_local(v, a, b)
+
+
 def _shift_term(t, loff, boff):
     t = _shift(t, loff, boff)
     for k in ('target', 'otherwise', 'unwind', 'resume'):
@@ -207,7 +221,7 @@ def closure_fp(body):
     return hashlib.sha1('|'.join(parts).encode()).hexdigest()[:16]
 
 
-COMBINATORS = re.compile(r'^(?:std::option::Option::<.*>::(map|and_then|map_or|map_or_else|unwrap_or_else|ok_or_else|is_some_and|is_none_or)|std::result::Result::<.*>::(map|map_err|and_then|unwrap_or_else|is_ok_and|is_err_and)|core::bool::<impl bool>::(then)|std::bool::<impl bool>::(then))$')
+COMBINATORS = re.compile(r'^(?:std::option::Option::<.*>::(map|and_then|map_or|map_or_else|unwrap_or_else|ok_or_else|is_some_and|is_none_or|filter)|std::result::Result::<.*>::(map|map_err|and_then|unwrap_or_else|is_ok_and|is_err_and)|core::bool::<impl bool>::(then)|std::bool::<impl bool>::(then))$')
 
 
 def _adt(adt, variant, vi, fields):
@@ -394,6 +408,14 @@ class Inliner:
         caller['blocks'].extend(new_blocks)
         if kind != 'poll' and cont is not None and not t['dest'].get('p'):
             self.thread_returns(caller, boff, len(new_blocks), loff, t['dest']['l'], cont)
+        if kind != 'poll' and cont is not None and not t['dest'].get('p'):
+            # the helper's return slot IS the destination: `_0 = Ok(())` of the helper is the caller's own `_0 = Ok(())`
+            dl = t['dest']['l']
+            for nb in caller['blocks'][boff:]:
+                _rename_local(nb, loff, dl)
+                nb['stmts'] = [st for st in nb['stmts'] if not (st['k'] == 'assign' and st['rv']['k'] == 'use' and not st['lhs'].get('p') and st['lhs']['l'] == dl
+                                                                 and (st['rv']['op'].get('mv') or st['rv']['op'].get('cp') or {}).get('l') == dl
+                                                                 and not (st['rv']['op'].get('mv') or st['rv']['op'].get('cp') or {}).get('p'))]
         blk['stmts'].extend(pre)
         blk['term'] = dict({'k': 'goto', 'target': boff, 'inl_call': callee['path']}, **{k: t[k] for k in ('file', 'ln') if k in t})
         top = top_path(callee['path'])
@@ -427,10 +449,15 @@ class Inliner:
                         inner = None
                         if len(rv.get('fields') or []) == 1:
                             fl = _op_local(rv['fields'][0])
+                            fc_ = rv['fields'][0].get('c')
+                            if fc_ is not None and isinstance(fc_.get('v'), int):
+                                inner = ('int', fc_['v'])      # Ok(true) / Some(0)
                             if fl is not None:
                                 ds_ = [d_ for d_ in _defs_of(caller, fl) if boff <= d_[1] < boff + n]
                                 if len(ds_) == 1 and ds_[0][0] == 'assign' and ds_[0][2]['rv']['k'] == 'agg' and ds_[0][2]['rv'].get('agg') == 'adt' and isinstance(ds_[0][2]['rv'].get('vi'), int):
                                     inner = ('var', ds_[0][2]['rv'].get('adt'), ds_[0][2]['rv']['vi'])
+                                elif len(ds_) == 1 and ds_[0][0] == 'assign' and not ds_[0][2]['lhs'].get('p') and ds_[0][2]['rv']['k'] == 'use' and (ds_[0][2]['rv']['op'].get('c') or {}).get('v') is not None and isinstance(ds_[0][2]['rv']['op']['c']['v'], int):
+                                    inner = ('int', ds_[0][2]['rv']['op']['c']['v'])
                         val = {('var', rv.get('adt'), rv['vi'], inner) if inner else ('var', rv.get('adt'), rv['vi'])}
                     else:
                         val = {'?'}
@@ -506,6 +533,7 @@ class Inliner:
         """From the Continue target of a `?`: follow straight-line blocks to the switch on the discriminant of the unwrapped
         value; returns a new block that replays those statements and jumps to the target of the known variant."""
         alias = set()
+        neg = set()     # locals holding the negation of the (bool) payload
         stmts = []
         bi = start
         for _ in range(6):
@@ -515,6 +543,13 @@ class Inliner:
                 if st['k'] != 'assign' or st['lhs'].get('p'):
                     continue
                 rv = st['rv']
+                if rv['k'] == 'un' and rv.get('op') == 'Not':
+                    pl = rv['a'].get('mv') or rv['a'].get('cp') or {}
+                    if not pl.get('p') and pl.get('l') in alias:
+                        neg.add(st['lhs']['l'])
+                    elif not pl.get('p') and pl.get('l') in neg:
+                        alias.add(st['lhs']['l'])
+                    continue
                 if rv['k'] == 'use':
                     pl = rv['op'].get('mv') or rv['op'].get('cp')
                     if pl is None:
@@ -524,7 +559,18 @@ class Inliner:
                         alias.add(st['lhs']['l'])
                     elif pl['l'] in alias and not proj:
                         alias.add(st['lhs']['l'])
+                    elif pl['l'] in neg and not proj:
+                        neg.add(st['lhs']['l'])
             t_ = blk['term']
+            if t_['k'] == 'switch' and inner[0] == 'int':
+                dl = _op_local(t_['discr'])
+                if dl in alias or dl in neg:
+                    val = inner[1] if dl in alias else (0 if inner[1] else 1)
+                    tg = dict((v_, b_) for v_, b_ in t_['targets'])
+                    nb = {'cleanup': False, 'stmts': copy.deepcopy(stmts), 'term': {'k': 'goto', 'target': tg.get(val, t_['otherwise']), 'threaded': True}}
+                    caller['blocks'].append(nb)
+                    return len(caller['blocks']) - 1
+                return None
             if t_['k'] == 'switch':
                 dl = _op_local(t_['discr'])
                 ok = any(st['k'] == 'assign' and st['lhs']['l'] == dl and st['rv']['k'] == 'discr' and st['rv']['place']['l'] in alias and not [e for e in (st['rv']['place'].get('p') or []) if e != '*'] for st in blk['stmts'])
@@ -735,6 +781,20 @@ class Inliner:
                 elif kind == 'ok_or_else':
                     bn = call_closure(fop, fv, [], lambda r: [assign(dest, _adt(RES, 'Err', 1, [{'mv': {'l': r}}]))])
                     bs_call = block([assign(dest, _adt(RES, 'Ok', 0, [{'mv': {'l': v}}]))], {'k': 'goto', 'target': T})
+                elif kind == 'filter':
+                    # Some(v) if f(&v) else None
+                    rf = newlocal('?')
+                    r = newlocal('bool')
+                    take = take + [assign(rf, {'k': 'ref', 'mut': False, 'place': {'l': v}})]
+                    bn = block([assign(dest, _adt(OPT, 'None', 0, []))], {'k': 'goto', 'target': T})
+                    keep = block([assign(dest, _adt(OPT, 'Some', 1, [{'mv': {'l': v}}]))], {'k': 'goto', 'target': T})
+                    drop_ = block([assign(dest, _adt(OPT, 'None', 0, []))], {'k': 'goto', 'target': T})
+                    sw = block([], {'k': 'switch', 'discr': {'mv': {'l': r}}, 'targets': [[0, drop_]], 'otherwise': keep})
+                    if fv[0] == 'fnitem':
+                        bs_call = block([], {'k': 'call', 'func': {'c': copy.deepcopy(fv[2])}, 'args': [{'mv': {'l': rf}}], 'dest': {'l': r}, 'target': sw})
+                    else:
+                        fc = {'ty': 'closure call', 'fn': fv[1], 'local': True, 'args': [], 'res': fv[1], 'res_local': True, 'res_kind': 'closure'}
+                        bs_call = block([], {'k': 'call', 'func': {'c': fc}, 'args': [fop, {'mv': {'l': rf}}], 'dest': {'l': r}, 'target': sw, 'expanded': True})
                 elif kind in ('is_some_and', 'is_none_or'):
                     cst = {'c': {'ty': 'bool', 'v': 0 if kind == 'is_some_and' else 1}}
                     bn = block([assign(dest, {'k': 'use', 'op': cst})], {'k': 'goto', 'target': T})
@@ -742,8 +802,8 @@ class Inliner:
                 else:
                     continue
                 bs = block(take, {'k': 'goto', 'target': bs_call})
-                blk['stmts'].append(assign(d, {'k': 'discr', 'place': {'l': s_loc}, 'ty': OPT}))
-                blk['term'] = dict({'k': 'switch', 'discr': {'mv': {'l': d}}, 'targets': [[0, bn], [1, bs]], 'otherwise': bs}, **src)
+                blk['stmts'].append(assign(d, {'k': 'discr', 'place': {'l': s_loc}, 'ty': body['locals'][s_loc].get('ty') or OPT, 'adt': OPT}))
+                blk['term'] = dict({'k': 'switch', 'discr': {'mv': {'l': d}}, 'targets': [[0, bn], [1, bs]], 'otherwise': block([], {'k': 'unreachable'})}, **src)
                 n += 1
                 self._thread_new_blocks(body, base, dest, T)
             else:
@@ -768,8 +828,8 @@ class Inliner:
                     bok = block([assign(dest, {'k': 'use', 'op': ok_v})], {'k': 'goto', 'target': T})
                 else:
                     continue
-                blk['stmts'].append(assign(d, {'k': 'discr', 'place': {'l': s_loc}, 'ty': RES}))
-                blk['term'] = dict({'k': 'switch', 'discr': {'mv': {'l': d}}, 'targets': [[0, bok], [1, berr]], 'otherwise': berr}, **src)
+                blk['stmts'].append(assign(d, {'k': 'discr', 'place': {'l': s_loc}, 'ty': body['locals'][s_loc].get('ty') or RES, 'adt': RES}))
+                blk['term'] = dict({'k': 'switch', 'discr': {'mv': {'l': d}}, 'targets': [[0, bok], [1, berr]], 'otherwise': block([], {'k': 'unreachable'})}, **src)
                 n += 1
                 self._thread_new_blocks(body, base, dest, T)
         return n
@@ -956,8 +1016,11 @@ def apply(raw):
     known = load_known()
     if known is None:
         return None
-    fps = json.load(open(KNOWN)).get('closure_fps')
+    kj = json.load(open(KNOWN))
+    fps = kj.get('closure_fps')
+    import canon
+    renamed = canon.apply(raw, kj)
     inl = Inliner(raw, known, fps).run()
     if not inl.unknown_tops and not getattr(inl, 'expanded', 0):
-        return {'unknown': [], 'splices': 0}
-    return {'unknown': inl.unknown_tops, 'expanded_combinators': getattr(inl, 'expanded', 0), 'splices': getattr(inl, 'total', 0), 'dropped': getattr(inl, 'dropped', []), 'log': inl.log[:200]}
+        return {'unknown': [], 'splices': 0, 'renamed': renamed}
+    return {'renamed': renamed, 'unknown': inl.unknown_tops, 'expanded_combinators': getattr(inl, 'expanded', 0), 'splices': getattr(inl, 'total', 0), 'dropped': getattr(inl, 'dropped', []), 'log': inl.log[:200]}
